@@ -26,6 +26,9 @@ CHECKS = {
  "C11": ("fault_enumeration", "fault-instant sweep (mute slave / slow slave at T-2..T / unmapped address) with termination-latency, error-indication and recovery monitors",
          "For Wishbone, AXI-Lite and AXI4 (Timeout alone, shared interconnect, crossbar) and T in {1,2,3,5,8,16} the cycle at which a slave goes mute is swept over every cycle (every third in quick) of a short multi-master history, per fault kind (all channels / responses only / address acceptance only); slow healthy slaves answer at T-2..T including the expiry cycle. Every request must terminate exactly once, timed-out ones at the configured latency with the bus's error indication, answered ones unmodified, and the history must complete. WaitTimer against a cycle-exact reference; SoCController.bus_errors wired as in SoC.finalize (increment per timeout, saturation by presetting the counter).",
          "trusted: simulator, BFMs; c_bus constants stated in the check; faulty slaves stay mute for ever", "4 C11"),
+ "C09": ("exploration", "master-side history vs window reference byte memory + online protocol monitors on every slave-side output, per partner class",
+         "Every bridge / AXI-Lite converter / AXI-Lite SRAM configuration (38) x partner classes (LiteX-like single-outstanding partners, which must be clean; hostile-but-legal partners that queue, delay, back-pressure; error-injecting slaves) x read/write/burst histories. Reads are checked byte-wise against a reference memory that admits every value a time-overlapping write could give; a raised valid / Wishbone request on the slave side must be held unchanged until accepted; slave errors must surface at the master.",
+         "trusted: simulator, BFMs (lib/bench/*.py), AMBA address model, WindowRefMem; Wishbone slaves raise err together with ack (LiteX convention)", "4 C09"),
 }
 
 def main():
